@@ -22,7 +22,8 @@ impl FileWriter {
         filename: &str,
         content: &str,
     ) -> Result<(), Box<dyn std::error::Error>> {
-        let file_path = format!("{}/{}", self.output_path, filename);
+        // joined as a path: an empty output path is the current directory, not the root
+        let file_path = Path::new(&self.output_path).join(filename);
         fs::write(&file_path, content)?;
         self.generated_files.push(filename.to_string());
         Ok(())
